@@ -30,7 +30,7 @@ import (
 // CloseCase: Close of one component at a drawn moment relative to its
 // in-flight work.
 type CloseCase struct {
-	Comp string `json:"comp"` // syncer | rhp4 | wallet
+	Comp string `json:"comp"` // syncer | syncer-sync | rhp4 | wallet
 	// Blocked: work items held inside the component (RPC handlers inside the
 	// ChainManager / Settings call, the wallet's rebroadcast inside its store
 	// call) when Close is issued.
@@ -55,7 +55,7 @@ type CloseCase struct {
 
 func genClose(t *rapid.T) CloseCase {
 	c := CloseCase{
-		Comp:         rapid.SampledFrom([]string{"syncer", "syncer", "rhp4", "wallet"}).Draw(t, "comp"),
+		Comp:         rapid.SampledFrom([]string{"syncer", "syncer", "syncer", "syncer", "syncer", "syncer", "rhp4", "rhp4", "rhp4", "wallet", "wallet", "wallet", "syncer-sync"}).Draw(t, "comp"),
 		Blocked:      rapid.IntRange(0, 4).Draw(t, "blocked"),
 		Idle:         rapid.IntRange(0, 6).Draw(t, "idle"),
 		Connects:     rapid.IntRange(0, 4).Draw(t, "connects"),
@@ -158,6 +158,8 @@ func runClose(c CloseCase, cs *kit.CaseStats) error {
 	switch c.Comp {
 	case "syncer":
 		err = runCloseSyncer(c, cs)
+	case "syncer-sync":
+		err = runCloseSyncing(c, cs)
 	case "rhp4":
 		err = runCloseRHP4(c, cs)
 	case "wallet":
@@ -349,6 +351,95 @@ func runCloseSyncer(c CloseCase, cs *kit.CaseStats) error {
 		cs.Class("syncer:connects-racing-close")
 	}
 	return run.result()
+}
+
+// runCloseSyncing: Close of a syncer in the middle of a parallel block
+// download. The node at genesis is connected to 2 + Idle%3 peers that all hold
+// the same short chain (one block request, so at most two workers are busy and
+// the others wait for work); the peers hold every block request inside their
+// manager. Close is issued while the download is in flight; the held requests
+// are released ReleaseUS later. A syncer whose download is aborted must let go
+// of its busy and of its idle workers.
+func runCloseSyncing(c CloseCase, cs *kit.CaseStats) error {
+	var blocks []kit.BlockSpec
+	for i := 0; i < 6+c.Connects; i++ {
+		blocks = append(blocks, kit.BlockSpec{Dt: 1})
+	}
+	tr := kit.BuildTree(kit.TreeCase{Net: kit.NetSpec{Maturity: 1, Allow: 2, ReqOff: 2, CutOff: 2}, Blocks: blocks})
+	tip := tr.Nodes[len(tr.Nodes)-1]
+	node, err := p2px.NewChainNode(tr, nil, 0)
+	if err != nil {
+		return fmt.Errorf("INFRA: %v", err)
+	}
+	defer node.Close()
+	gate := p2px.NewGate()
+	npeers := 2 + mod(c.Idle, 3)
+	var peers []*p2px.SyncerNode
+	quiet := []syncer.Option{syncer.WithSyncInterval(time.Hour), syncer.WithPeerDiscoveryInterval(time.Hour)}
+	defer func() {
+		gate.Open()
+		for _, p := range peers {
+			p.Close(closeWatchdog)
+			p.Node.Close()
+		}
+	}()
+	for i := 0; i < npeers; i++ {
+		kn, err := p2px.NewChainNode(tr, tip, 0)
+		if err != nil {
+			return fmt.Errorf("INFRA: %v", err)
+		}
+		sn, err := p2px.StartSyncer(kn, p2px.NodeConfig{Name: fmt.Sprintf("src%d", i), IP: p2px.ListenIP(10 + i), UID: p2px.DetUniqueID("close-src", i), Gate: gate, Opts: quiet})
+		if err != nil {
+			kn.Close()
+			return err
+		}
+		sn.CM.HoldServe = true
+		peers = append(peers, sn)
+	}
+	srv, err := p2px.StartSyncer(node, p2px.NodeConfig{Name: "srv", IP: p2px.ListenIP(0), UID: p2px.DetUniqueID("close-sync-srv"), Opts: []syncer.Option{syncer.WithSyncInterval(5 * time.Millisecond), syncer.WithPeerDiscoveryInterval(time.Hour)}})
+	if err != nil {
+		return err
+	}
+	defer srv.Close(closeWatchdog)
+	for _, p := range peers {
+		if err := srv.Connect(p, 10*time.Second); err != nil {
+			cs.Inconclusive("connect-failed")
+			return nil
+		}
+	}
+	// the download is in flight once a block request is held inside a peer
+	if !gate.WaitFor(func(s p2px.GateSnapshot) bool { return s.Inside() >= 1 }, closeWatchdog) {
+		cs.Inconclusive("download-not-started")
+		return nil
+	}
+	busy := gate.Snapshot().Inside()
+	cs.Classf("syncer-sync:peers=%d,held-requests=%d", npeers, busy)
+	if npeers > busy {
+		cs.Class("syncer-sync:idle-worker-at-close")
+	}
+	p2px.Pause(c.CloseDelayUS)
+	var wg sync.WaitGroup
+	for k := 0; k < max(1, c.Closers); k++ {
+		wg.Add(1)
+		go func() { defer wg.Done(); srv.S.Close() }()
+	}
+	p2px.Pause(max(0, c.ReleaseUS))
+	gate.Open() // the peers answer (to a node that is no longer listening)
+	done := make(chan struct{})
+	go func() { wg.Wait(); close(done) }()
+	select {
+	case <-done:
+	case <-time.After(closeWatchdog):
+		parked := p2px.StacksWith("syncer.(*Syncer).parallelSync", "syncer.(*Syncer).Close", "syncer.(*Syncer).syncLoop")
+		return fmt.Errorf("syncer Close during a parallel block download (%d peers, %d requests in flight) did not return within %v after the serving peers answered; goroutines inside the download / Close:\n%s", npeers, busy, closeWatchdog, p2px.ClipStacks(parked, 10))
+	}
+	select {
+	case <-srv.RunErr:
+	case <-time.After(closeWatchdog):
+		return fmt.Errorf("syncer Run did not return within %v after Close returned (download in flight at Close)", closeWatchdog)
+	}
+	cs.NonTrivial()
+	return nil
 }
 
 var scriptedMu sync.Mutex
